@@ -92,4 +92,20 @@ Section Url.
     destruct (urlparts_of_facts _ _ _ _ EU) as [Hh Hsch].
     apply (path_inside_root sha1hex pylower pyupper Hsha Hlower Hupper c root u path Hi); auto.
   Qed.
+  (* the whole chain from two URL strings (request, last hop) to the opened path *)
+  Theorem session_from_urls
+          (fs_isfile_o fs_isdir_o fs_exists_o : str -> bool) w fuel c root url1 ftp1 need1 url2 ftp2 need2 u1 r o f :
+    index c <> [] -> starts_with_scheme url1 -> starts_with_scheme url2 ->
+    urlparts_of bracket_ok netloc_ok pylower need1 url1 ftp1 = Ok u1 ->
+    urlparts_of bracket_ok netloc_ok pylower need2 url2 ftp2 = Ok (r_url r) ->
+    root_clean fs_isfile_o (initial_slashes root) (nstack root) ->
+    session_run sha1hex pylower pyupper fs_isfile_o fs_isdir_o fs_exists_o w fuel c root u1 r = Ok o ->
+    opened o f -> placed c (initial_slashes root) (nstack root) f.
+  Proof.
+    intros Hi Hs1 Hs2 E1 E2 Hrc H Ho.
+    apply (session_run_placed fs_isfile_o fs_isdir_o fs_exists_o sha1hex pylower pyupper Hsha Hlower Hupper
+                              w fuel c root u1 r o f Hi); auto.
+    - exact (url_ok_of_url c need1 url1 ftp1 u1 (fun _ => Hs1) E1).
+    - exact (url_ok_of_url c need2 url2 ftp2 (r_url r) (fun _ => Hs2) E2).
+  Qed.
 End Url.
